@@ -274,6 +274,11 @@ inline Placed place(Choices& c, int forcedTmpl = -1) {
         put(p, flipY(ref::SQ(x, y5)), own('p'));
         put(p, flipY(ref::SQ(ex, y5)), opp('p'));
         p.ep = flipY(ref::SQ(ex, y5 + 1));
+        // battery = roles swapped: ENEMY king and OWN slider, so that the e.p. capture gives a discovered check
+        // (through the capturing pawn's square or through the captured pawn's square)
+        bool battery = c.chance(1, 3);
+        const char KING = battery ? opp('k') : own('k');
+        auto SL = [&](char pc) { return battery ? own(pc) : opp(pc); };
         int mode = c.pick(4); // 0 rank pin, 1 diagonal pin through capturer, 2 file/other, 3 random
         if (mode == 0) {
             int lo = std::min(x, ex), hi = std::max(x, ex);
@@ -282,26 +287,27 @@ inline Placed place(Choices& c, int forcedTmpl = -1) {
             if (hi == 7) kingLeft = true;
             int kxp = kingLeft ? c.range(0, lo - 1) : c.range(hi + 1, 7);
             int sxp = kingLeft ? (hi < 7 ? c.range(hi + 1, 7) : -1) : (lo > 0 ? c.range(0, lo - 1) : -1);
-            put(p, flipY(ref::SQ(kxp, y5)), own('k'));
-            if (sxp >= 0) put(p, flipY(ref::SQ(sxp, y5)), opp(c.flip() ? 'r' : 'q'));
+            put(p, flipY(ref::SQ(kxp, y5)), KING);
+            if (sxp >= 0) put(p, flipY(ref::SQ(sxp, y5)), SL(c.flip() ? 'r' : 'q'));
         } else if (mode == 1) {
             // king behind the capturing pawn on a diagonal, bishop/queen on the far side
             int dx = c.flip() ? 1 : -1;
-            int kxp = x - dx, kyp = y5 - 1, bx = x + dx, by = y5 + 1;
-            if (c.flip()) { kxp = x - dx; kyp = y5 + 1; bx = x + dx; by = y5 - 1; }
-            if (ref::onBoard(kxp, kyp) && p.b[flipY(ref::SQ(kxp, kyp))] == '.') put(p, flipY(ref::SQ(kxp, kyp)), own('k'));
+            int px = c.chance(1, 3) ? ex : x; // the diagonal through the capturing pawn, or through the captured pawn
+            int kxp = px - dx, kyp = y5 - 1, bx = px + dx, by = y5 + 1;
+            if (c.flip()) { kxp = px - dx; kyp = y5 + 1; bx = px + dx; by = y5 - 1; }
+            if (ref::onBoard(kxp, kyp) && p.b[flipY(ref::SQ(kxp, kyp))] == '.') put(p, flipY(ref::SQ(kxp, kyp)), KING);
             while (ref::onBoard(bx + dx, by + (by > y5 ? 1 : -1)) && c.flip()) { bx += dx; by += (by > y5 ? 1 : -1); }
-            if (ref::onBoard(bx, by) && p.b[flipY(ref::SQ(bx, by))] == '.') put(p, flipY(ref::SQ(bx, by)), opp(c.flip() ? 'b' : 'q'));
+            if (ref::onBoard(bx, by) && p.b[flipY(ref::SQ(bx, by))] == '.') put(p, flipY(ref::SQ(bx, by)), SL(c.flip() ? 'b' : 'q'));
         } else if (mode == 2) {
             // king on the file of the capturing pawn or of the captured pawn, rook behind
             int fx = c.flip() ? x : ex;
             int ky = c.range(0, y5 - 1), ry = c.range(y5 + 2, 7);
             if (c.flip()) std::swap(ky, ry);
-            if (p.b[flipY(ref::SQ(fx, ky))] == '.') put(p, flipY(ref::SQ(fx, ky)), own('k'));
-            if (p.b[flipY(ref::SQ(fx, ry))] == '.') put(p, flipY(ref::SQ(fx, ry)), opp(c.flip() ? 'r' : 'q'));
+            if (p.b[flipY(ref::SQ(fx, ky))] == '.') put(p, flipY(ref::SQ(fx, ky)), KING);
+            if (p.b[flipY(ref::SQ(fx, ry))] == '.') put(p, flipY(ref::SQ(fx, ry)), SL(c.flip() ? 'r' : 'q'));
         }
         if (p.count(own('k')) == 0) put(p, emptySquare(c, p), own('k'));
-        put(p, emptySquare(c, p), opp('k'));
+        if (p.count(opp('k')) == 0) put(p, emptySquare(c, p), opp('k'));
         placeMen(c, p, sideMen(c, c.range(0, 4), false), true);
         placeMen(c, p, sideMen(c, c.range(0, 4), false), false);
         // keep the e.p. geometry intact: squares behind the pushed pawn must be empty
